@@ -219,6 +219,62 @@ def dpg_sac_cases(chk, rng, n):
             chk.disagree(kind, {"case": case, "impl": impl, "model": mr})
 
 
+def embedded_policy_cases(chk, rng, n):
+    """DPG objectives of the SALE (TD7) and encoder (MR.Q) policies on real modules with non-unit action bounds:
+    the critic must be evaluated at the action the policy actually produces."""
+    import jax.numpy as jnp
+    from rl_blox.algorithm.mrq import create_mrq_state, mrq_policy_loss
+    from rl_blox.algorithm.td7 import create_td7_state, deterministic_policy_gradient_loss_sale
+    from stubs import ScriptEnv
+    exprs, recs = [], []
+    for i in range(n):
+        d = int(rng.choice([1, 2]))
+        low = rng.uniform(-3, 1, size=d).astype(np.float32)
+        high = (low + rng.uniform(0.5, 5, size=d)).astype(np.float32)
+        if i % 4 == 0:
+            low, high = -np.ones(d, dtype=np.float32), np.ones(d, dtype=np.float32)
+        env = ScriptEnv([(3, "term")], low=tuple(float(x) for x in low), high=tuple(float(x) for x in high))
+        N = int(rng.choice([2, 5]))
+        obs = jnp.asarray(rng.normal(size=(N, 3)).astype(np.float32))
+        case = {"N": N, "low": low.tolist(), "high": high.tolist()}
+        chk.case(("embedded", i, str(case)))
+        chk.count("embedded_policy_cases")
+        # --- MR.Q encoder policy
+        st = create_mrq_state(env, policy_hidden_nodes=(4,), q_hidden_nodes=(4,), encoder_n_bins=7, encoder_zs_dim=4, encoder_za_dim=3, encoder_zsa_dim=4,
+                              encoder_hidden_nodes=(4,), seed=i)
+        enc, pol = st.policy_with_encoder.encoder, st.policy_with_encoder.policy
+        zs = enc.encode_zs(obs)
+        w = float(rng.choice([0.0, 1e-2, 0.5]))
+        loss, (dpg, reg) = mrq_policy_loss(pol, st.q, enc, zs, w)
+        act = pol(zs)                                       # the action the policy produces
+        qv = np.asarray(st.q(enc.encode_zsa(zs, act)), dtype=float)
+        reg_ref = float(np.mean(np.square(np.asarray(pol.policy_net(zs), dtype=float))))
+        if not (close(float(dpg), -float(qv.mean()), rtol=1e-4, atol=1e-5) and close(float(reg), reg_ref, rtol=1e-4, atol=1e-6)
+                and close(float(loss), -float(qv.mean()) + w * reg_ref, rtol=1e-4, atol=1e-5)):
+            chk.fail("C12:mrq_policy_loss:value", "the MR.Q policy loss is not -mean Q(zsa(zs, pi(zs))) + weight * mean(pre-activation^2) at the action the policy produces",
+                     {"case": case, "impl": [float(loss), float(dpg), float(reg)], "documented": [-float(qv.mean()) + w * reg_ref, -float(qv.mean()), reg_ref],
+                      "policy_action": np.asarray(act).tolist()})
+        exprs.append(f"(sf (M.dpg_loss float_ops {t2(qv.reshape(N, -1)[:, :1])}))")
+        recs.append(("mrq_dpg", case, float(dpg) if qv.reshape(N, -1).shape[1] == 1 else -float(qv.reshape(N, -1)[:, :1].mean())))
+        # --- TD7 SALE policy
+        s7 = create_td7_state(env, n_embedding_dimensions=4, state_embedding_hidden_nodes=(4,), state_action_embedding_hidden_nodes=(4,), policy_sa_encoding_nodes=4,
+                              policy_hidden_nodes=(4,), q_sa_encoding_nodes=4, q_hidden_nodes=(4,), seed=i)
+        dl = deterministic_policy_gradient_loss_sale(s7.embedding, s7.critic, obs, s7.actor)
+        zs7 = s7.embedding.state_embedding(obs)
+        a7 = s7.actor(obs, zs7)
+        zsa7 = s7.embedding.state_action_embedding(jnp.concatenate((zs7, a7), axis=-1))
+        q7 = np.asarray(s7.critic.mean(jnp.concatenate((obs, a7), axis=-1), zs=zs7, zsa=zsa7), dtype=float)
+        inside = bool(np.all(np.asarray(a7) >= low - 1e-5) and np.all(np.asarray(a7) <= high + 1e-5))
+        if not close(float(dl), -float(q7.mean()), rtol=1e-4, atol=1e-5) or not inside:
+            chk.fail("C12:deterministic_policy_gradient_loss_sale:value", "the SALE actor loss is not -mean Q(o, pi(o)) at the (bounded) action the actor produces",
+                     {"case": case, "impl": float(dl), "documented": -float(q7.mean()), "actions_inside_bounds": inside})
+        exprs.append(f"(sf (M.dpg_loss float_ops {t2(q7.reshape(N, 1))}))")
+        recs.append(("sale_dpg", case, float(dl)))
+    for (kind, case, impl), mr in zip(recs, chk.model_eval(exprs)):
+        if not close(impl, parse_f(mr), rtol=1e-4, atol=1e-5):
+            chk.disagree(kind, {"case": case, "impl": impl, "model": mr})
+
+
 def a2c_norm_cases(chk, rng, n):
     import jax
     import jax.numpy as jnp
@@ -267,11 +323,13 @@ def main(chk):
     ppo_cases(chk, rng, 24 if q else 800)
     dpg_sac_cases(chk, rng, 16 if q else 500)
     a2c_norm_cases(chk, rng, 8 if q else 200)
+    embedded_policy_cases(chk, rng, 6 if q else 80)
     chk.sample({"note": "stub policy with linear log-probability / sample / entropy networks and linear critics (half-integer weights), dyadic "
                         "batches of size 1-8; value and jax gradient vs documented formulas and vs the dual-number evaluation of the extracted model"})
     return chk.finish(
         rule="pseudo-loss (value, gradient, (N,1)-weight rejection, REINFORCE and actor-critic weights as constants), PPO objective "
              "(ratio 1 and ratios e^{+-0.25}, e^{+-0.5} on both advantage signs; value term; critic gradient), DPG and SAC actor losses, "
-             "first temperature step through _update_entropy_coefficient, A2C advantage normalisation observed inside train_policy_a2c",
+             "first temperature step through _update_entropy_coefficient, A2C advantage normalisation observed inside train_policy_a2c; DPG objective of "
+             "the MR.Q encoder policy (mrq_policy_loss) and of the TD7 SALE actor on real modules with unit and non-unit action bounds",
         assumptions=["policy / critic forward passes are oracles (stub linear modules)", "JAX autodiff trusted to differentiate the traced program",
                      "ratios are kept away from the clip edges (max/min kinks are not compared)", "float32 tolerance 1e-4"])
